@@ -102,10 +102,12 @@ def build_case(u, cap=4080, target=None, cfgsel=None):
             cfg.community = "c" * n
     if target is None:
         w = u.below(8)
+        # the 127/128 and 255/256 boundaries are crossed by the varbind list, the PDU, the scoped PDU, msgSecurityParameters and
+        # the message at different total sizes (v1 ~ +25, v3 ~ +130 octets of wrapping): cover the whole band
         if w == 0:
-            target = u.range(100, 140)
+            target = u.range(100, 300)
         elif w == 1:
-            target = u.range(240, 270)
+            target = u.range(240, 430)
         elif w <= 5:
             target = u.range(cap - 40, cap + 200)
         else:
@@ -238,7 +240,7 @@ def sweep(rep, G, cap, links, tier="thorough"):
     for cfg in cfgs:
         sizes = list(range(cap - 70, cap + 40))
         if tier == "thorough":
-            sizes = list(range(100, 140)) + list(range(240, 270)) + list(range(cap - 200, cap + 120))
+            sizes = list(range(100, 430)) + list(range(cap - 200, cap + 120))
         for t in sizes:
             c = {"cfg": cfg, "oids": [(1, 3, 6, 1, 2, 1, 1, 1, 0)], "target": t, "dim": "sweep"}
             try:
